@@ -132,7 +132,7 @@ def make_jobs(check, edges):
 
 def job_fn(job):
     if job.get("kind") == "session":
-        return L.run_session(job)
+        return L.run_genuine(job) if job.get("genuine") else L.run_session(job)
     return L.run_job(job)
 
 
@@ -223,6 +223,9 @@ def run(check):
     nsess = 16 if check.quick else 48
     quota = 700 if check.quick else 2500
     sess = [{"kind": "session", "seed": rnd.randrange(1 << 30), "quota": quota, "steps": 400} for _ in range(nsess)]
+    ngen = 8 if check.quick else 32            # (V') genuine traffic under reordering, duplication and loss: no hostile input at all
+    sess += [{"kind": "session", "genuine": True, "seed": rnd.randrange(1 << 30), "n": 12 if check.quick else 60} for _ in range(ngen)]
+    nsess = len(sess)
     order = list(range(len(jobs)))
     random.Random(check.seed + 1).shuffle(order)          # spread heavy jobs over the workers
     jobs = [jobs[i] for i in order]
